@@ -178,6 +178,9 @@ M = [
     ("C14", "yieldfrom-does-not-send-the-zero-value", "cor.go",
      "func (corSelf *CorDef[T]) YieldFrom(target *CorDef[T], in T) T {\n\tvar result T\n",
      "func (corSelf *CorDef[T]) YieldFrom(target *CorDef[T], in T) T {\n\tvar result T\n\tif any(in) == any(result) {\n\t\treturn result\n\t}\n"),
+    ("C16", "pmap-memoises-equal-elements", "fp.go",
+     "\tvar wg sync.WaitGroup\n\n\tfor i := 0; i < worker; i++ {\n\t\twg.Add(1)\n\n\t\tgo func(chResult chan map[int]R, chJobs chan map[int]T) {\n\t\t\tdefer wg.Done()\n\n\t\t\tfor m := range chJobs {\n\t\t\t\tfor k, v := range m {\n\t\t\t\t\tchResult <- map[int]R{k: f(v)}\n",
+     "\tvar wg sync.WaitGroup\n\tvar memo sync.Map\n\n\tfor i := 0; i < worker; i++ {\n\t\twg.Add(1)\n\n\t\tgo func(chResult chan map[int]R, chJobs chan map[int]T) {\n\t\t\tdefer wg.Done()\n\n\t\t\tfor m := range chJobs {\n\t\t\t\tfor k, v := range m {\n\t\t\t\t\tif r, ok := memo.Load(any(v)); ok {\n\t\t\t\t\t\tchResult <- map[int]R{k: r.(R)}\n\t\t\t\t\t\tcontinue\n\t\t\t\t\t}\n\t\t\t\t\tr := f(v)\n\t\t\t\t\tmemo.Store(any(v), r)\n\t\t\t\t\tchResult <- map[int]R{k: r}\n"),
     ("C16", "pmap-drops-zero-results", "fp.go",
      "func PMap[T any, R any](f TransformerFunctor[T, R], option *PMapOption, list ...T) []R {\n",
      "func PMap[T any, R any](f TransformerFunctor[T, R], option *PMapOption, list ...T) []R {\n\tif len(list) > 0 && any(list[0]) == any(*new(T)) {\n\t\tlist = list[1:]\n\t}\n"),
